@@ -47,7 +47,17 @@ Input classes ("over all utterance counts / any valid map", "with a fixed --seed
     is still to do), and some id extends an earlier, shorter one ("listed" means: is a line of the manifest);
   * one fixture uses the boundary value --seed=0 (a fixed seed like any other) in a kill/resume case, a
     same-command-twice case (kill before the first save, then the re-run) and a --num-workers case.
-The ids and the seed are part of the case (`ids`, `seed`), so `replay` rebuilds the same map.
+  * maps that MIX what the command accepts utterance by utterance (MIXED, see LAYOUT NOTE): mono signals stored as
+    (S,) and as (1, S) side by side with --channel left at its default; (1, S) / (2, S) / (3, S) ... side by side with
+    --channel c; containers npy / wav / pt / hdf5 / npz; lengths from 222 to 2400 samples next to one another. "The
+    output is independent of --num-workers" and "re-running the same command afterwards leaves a directory whose files
+    are identical to those of an uninterrupted run" then also say: what one process computed BEFORE an utterance (which
+    is all that --num-workers and a kill point change) has no influence on it - neither on its values nor on whether
+    the command gets through. If the uninterrupted --num-workers 0 run of such a map aborts, every case of the fixture
+    fails, and the message says whether another worker count / a kill + re-run gets through (C10.workers.identical /
+    C10.resume.identical).
+The ids, the seed and (for mixed maps) `layouts`, `lengths`, `channel` are part of the case, so `replay` rebuilds the
+same map.
 """
 import concurrent.futures
 import hashlib
@@ -829,6 +839,8 @@ def run(tier: str, seed: int) -> dict:
         shutil.rmtree(root, ignore_errors=True)
     col.note(f"kill cases whose manifest was non-empty at a kill (resume skips a non-empty prefix): {n_nonempty_prefix}")
     done = sorted({c["config"] for c in cases})
+    mixed_done = sorted({(tuple(c["layouts"]), c.get("channel")) for c in cases if c.get("layouts")}, key=str)
+    col.note("mixed maps (layouts in map order, --channel): " + "; ".join(f"{list(l)} channel={ch}" for l, ch in mixed_done))
     col.note("position of the random pre-processor in the planned --preprocess chains: " + "; ".join(f"{c}: {RANDOM_POSITION.get(c, '?')}" for c in done))
     return col.result(
         rule="one case = one scenario in subprocesses: either kill stage(s) (point, k, hard|soft) followed by a re-run of "
@@ -854,7 +866,15 @@ def run(tier: str, seed: int) -> dict:
                 "configs; 4 kill cases with worker processes / changed worker count on resume; 8 double-kill "
                 "scenarios; workers {1,2} for every fixture"
             )
-            + "; <= 4 utterances, <= 2 successive kills, single invocation at a time"
+            + "; maps mixing storage layouts / containers / lengths ("
+            + (
+                "2 fixtures of 4 utterances: [npy (1,S), wav (S,), pt (1,S), hdf5 (S,)] with the default --channel and [npy (2,S), pt (1,S), "
+                "hdf5 (3,S), npz (1,S)] with --channel 0, lengths 250..2400; each: workers 2 vs 0, and one kill + re-run with another worker count"
+                if tier == "quick"
+                else f"{len(MIXED)} fixtures of 4 utterances {json.dumps({k: [v[1], v[3]] for k, v in MIXED.items()})}; each: workers {{1,2}} vs 0, a kill after "
+                "utterance 1, 2, 3 + re-run, and two kills with worker processes / another worker count on the re-run"
+            )
+            + "); <= 4 utterances, <= 2 successive kills, single invocation at a time"
         ),
         assumptions=ASSUMPTIONS,
     )
